@@ -83,6 +83,7 @@ def joiner_rules(facts, rep, D):
         rep.ob("R06.2", b.id, "pushed component is an element of path.split('/')", from_split, fmt(comp)[:60], t.line)
     # ---- R06.2b result assembly: every Ok return
     inter = D.inter
+    fold_closures = []
     for ct, gs0, bb in inter.ret_cases(b):
         pol = inter.case_polarity(ct)
         if pol == "err":
@@ -97,11 +98,19 @@ def joiner_rules(facts, rep, D):
         else:
             # assembled string: alternatives are the base definitions (in_path | "" | parent_internal(..))
             ok = True
+            def base_like(a0):
+                if is_arg(a0, 1) or a0 == ("str", ""):
+                    return True
+                return a0[0] == "call" and sname(a0[1]) == "parent_internal"
             for a in alts_:
                 a0 = a
-                if is_arg(a0, 1) or a0 == ("str", ""):
+                if base_like(a0):
                     continue
-                if a0[0] == "call" and sname(a0[1]) == "parent_internal":
+                # `stack.into_iter().fold(base, |acc, c| { acc += "/"; acc += c; acc })`: the base threaded through the appends
+                # (what the closure appends is judged with the other append sites below)
+                if a0[0] == "call" and a0[1] == "Iterator::fold" and len(a0[2]) == 3 and strip(a0[2][2])[0] == "closure" and \
+                        all(base_like(i0) for i0 in (norm(a0[2][1])[1] if norm(a0[2][1])[0] == "phi" else (norm(a0[2][1]),))):
+                    fold_closures.append(strip(a0[2][2])[1])
                     continue
                 ok = False
             why = "assembled from the base"
@@ -125,6 +134,23 @@ def joiner_rules(facts, rep, D):
             if peel(piece)[0] == "call" and sname(peel(piece)[1]) == "next":
                 continue
             pieces_ok = False
+    for cid in fold_closures:
+        fc = facts.body(cid)
+        if fc is None:
+            pieces_ok = False
+            continue
+        trc = get_tracer(facts, fc)
+        for blk in fc.calls():
+            t = blk.term
+            if short(t.callee() or "") in ("AddAssign::add_assign", "String::push_str", "String::push"):
+                npieces += 1
+                piece = norm(trc.operand(t.args[1]))
+                if piece == ("str", "/") or piece == ("char", "/"):
+                    continue
+                # the element parameter of the fold closure (env, accumulator, element)
+                if piece[0] == "arg" and piece[1] == 2 and len(piece) > 3 and piece[3] == fc.id:
+                    continue
+                pieces_ok = False
     n += 1
     rep.ob("R06.2", b.id, "result is extended only by '/' and stacked components", pieces_ok and npieces >= 2,
            "%d append site(s)" % npieces, b.span)
@@ -179,7 +205,10 @@ def joiner_rules(facts, rep, D):
                     continue
                 gs = D.guards(b, bb)
                 dd = any(g[0] == "bool" and g[2] is True and g[1][0] == "call" and g[1][1] == "PartialEq::eq" and g[1][2][1] == ("str", "..") for g in gs)
-                em = any(g[0] == "bool" and g[2] is True and g[1][0] == "call" and g[1][1] == "Vec::is_empty" for g in gs)
+                em = any(g[0] == "bool" and g[2] is True and g[1][0] == "call" and g[1][1] == "Vec::is_empty" for g in gs) or \
+                    any(g[0] == "bool" and g[1][0] == "call" and g[1][1] in ("Option::is_none", "Option::is_some") and
+                        g[2] is (g[1][1] == "Option::is_none") and g[1][2] and g[1][2][0][0] == "call" and g[1][2][0][1] == "Vec::pop" for g in gs) or \
+                    any(g[0] == "variant" and g[3] == "None" and peel(g[1])[0] == "call" and peel(g[1])[1] == "Vec::pop" for g in gs)
                 isp = x[0] == "call" and sname(x[1]) == "parent_internal"
                 n += 1
                 rep.ob("R06.3", b.id, "base shortened only by parent_internal on ('..' and empty stack)", isp and dd and em,
@@ -454,4 +483,4 @@ def run(facts, rep, tier, ctx):
     n = accessor_rules(facts, rep, D)
     rep.floor("accessor obligations", n, 2)
     n = totality(facts, rep, D)
-    rep.floor("panic sites in path accessors", n, 4)
+    rep.floor("panic sites in path accessors", n, 3)  # 4 today; a vacuity floor, not a site count: `pop()` for `truncate(len - 1)` removes one
